@@ -187,7 +187,7 @@ def _call(draw, V, has_cascade):
     k = draw(st.sampled_from(kinds))
     if k == "programs_plotdata":
         outs = draw(st.one_of(st.none(), st.lists(st.sampled_from(V["programs"]), min_size=1, max_size=3, unique=True)))
-        return [k, {"quantity": draw(st.sampled_from(["spending", "equivalent_spending", "coverage_number", "coverage_eligible", "coverage_fraction", "coverage_capacity"])), "outputs": outs, "t_bins": draw(st.sampled_from([None, None, 1.0, "all"])), "accumulate": draw(st.sampled_from([None, None, "sum", "integrate"])), "plot": draw(st.sampled_from([None, None, "series", "bars"])), "times": draw(st.integers(1, 2))}]
+        return [k, {"quantity": draw(st.sampled_from(["spending", "equivalent_spending", "coverage_number", "coverage_eligible", "coverage_fraction", "coverage_capacity"])), "outputs": outs, "t_bins": draw(st.sampled_from([None, 1.0, 2 * V["dt"], 0.5, "all", [V["start"], V["start"] + 1.0, V["start"] + 2.0], [V["start"] + V["dt"], V["start"] + 3 * V["dt"]]])), "accumulate": draw(st.sampled_from([None, None, "sum", "integrate"])), "plot": draw(st.sampled_from([None, None, "series", "bars"])), "times": draw(st.integers(1, 2))}]
     if k == "get_coverage":
         return [k, {"quantity": draw(st.sampled_from(["fraction", "number", "eligible", "capacity"])), "year": draw(st.sampled_from([None, None, V["start"] + 1.0])), "times": draw(st.integers(1, 2))}]
     if k in ("get_alloc", "get_equivalent_alloc"):
@@ -292,6 +292,12 @@ def requests(draw, V, tier):
                 for pop in V["pops"]:
                     if full or draw(st.booleans()):
                         req["data_edits"].append([nm, pop, y, float(draw(st.integers(0, 5000)))])
+    req["data_all_rows"] = []
+    if V["data_names"] and draw(st.integers(0, 2)) == 0:
+        for nm in draw(st.lists(st.sampled_from(V["data_names"]), min_size=1, max_size=3, unique=True)):
+            ys = sorted(set(edited) | {V["start"]})
+            own = draw(st.lists(st.sampled_from(V["pops"]), min_size=0, max_size=len(V["pops"]), unique=True))
+            req["data_all_rows"].append({"name": nm, "t": ys, "v": [float(draw(st.integers(5001, 9999))) for _ in ys], "own": own})
     for _ in range(draw(st.integers(0, 2))):
         c = draw(_cascade(V, True))
         if c is not None:
@@ -584,6 +590,50 @@ def _check_characteristics(c):
         c.labels.append("characteristic=sum-of-members")
 
 
+def _check_export_raw(c):
+    """the raw export holds, value by value, the stocks, characteristics, parameters and annualised flows (sum over the links of one name of people per step / dt)"""
+    df = c.res.export_raw()
+    if not np.array_equal(np.asarray(df.index, dtype=float), c.ref.t):
+        raise Violation(ID, "export-raw/time-axis", "index %r" % (list(df.index)[:4],))
+    got = {}
+    for col in df.columns:
+        cat, pop, name = col[0], col[1], col[2]
+        v = np.asarray(df[col], dtype=float)
+        k = (cat, pop, name)
+        if k in got and cat != "Flow rates":
+            raise Violation(ID, "export-raw/duplicate-column", "%r" % (k,))
+        got[k] = got[k] + v if k in got else v.copy()
+    own = {}
+    for pop in c.res.model.pops:
+        for x in pop.comps:
+            own[("Compartments", pop.name, x.name)] = (np.asarray(x.vals, dtype=float), None)
+        for x in pop.characs:
+            own[("Characteristics", pop.name, x.name)] = (c.ref.value(pop.name, x.name), None)
+        for x in pop.pars:
+            if x.vals is not None:
+                own[("Parameters", pop.name, x.name)] = (np.asarray(x.vals, dtype=float), None)
+        for l in pop.links:
+            k = ("Flow rates", pop.name, l.name if l.parameter is not None else "-")
+            tot, sc_ = own.get(k, (np.zeros(c.ref.t.shape), np.zeros(c.ref.t.shape)))
+            own[k] = (tot + np.asarray(l.vals, dtype=float) / c.ref.dt, sc_ + np.abs(np.asarray(l.vals, dtype=float)) / c.ref.dt)
+    if set(got) != set(own):
+        raise Violation(ID, "export-raw/rows", "rows only in the export %r, missing from it %r" % (sorted(set(got) - set(own))[:4], sorted(set(own) - set(got))[:4]))
+    nmulti = 0
+    for k, (v, sc_) in own.items():
+        i = H.mismatch(got[k], v, np.abs(v) if sc_ is None else sc_, RTOL)
+        if i is not None:
+            n = sum(1 for l in c.ref.pops[k[1]].links if (l.name if l.parameter is not None else "-") == k[2]) if k[0] == "Flow rates" else 1
+            raise Violation(ID, "export-raw/%s" % k[0].lower().replace(" ", "-"), "row %r (%d links, dt %r): exported %r, own %r" % (k, n, c.ref.dt, got[k][:5].tolist(), v[:5].tolist()))
+    for pop in c.res.model.pops:
+        names = [l.name for l in pop.links if l.parameter is not None]
+        nmulti += len(names) - len(set(names))
+    c.labels.append("export-raw:checked" + ("/parameter-with-several-links" if nmulti else ""))
+    try:
+        df.iloc[:, :] = -1.0
+    except Exception:
+        pass
+
+
 def _check_lists(c):
     outs, pitems = c.outputs, c.pop_items
     kw = {"project": c.P} if c.req.get("project") else {}
@@ -873,12 +923,30 @@ def _check_data_cascades(c):
     shared = False
     # databook used for the data cascades: a copy with the request's extra entries (the simulation and the plots keep the original)
     edits = {}
+    allrows, removed = {}, set()
     Dc = c.D
-    if c.req.get("data_edits") and c.req.get("data_cascades"):
+    if (c.req.get("data_edits") or c.req.get("data_all_rows")) and c.req.get("data_cascades"):
         import sciris as sc
 
         Dc = sc.dcp(c.D)
-        for nm, pop, y, v in c.req["data_edits"]:
+        # an "All" row (fallback for populations without a row of their own) next to the rows of the populations that keep theirs
+        for ar in c.req.get("data_all_rows") or []:
+            nm = ar["name"]
+            if nm not in Dc.tdve or nm in allrows:
+                continue
+            tdve = Dc.tdve[nm]
+            rows = list(tdve.ts.keys())
+            ts_all = at.TimeSeries(units=tdve.ts[rows[0]].units if rows else None)
+            for y, v in zip(ar["t"], ar["v"]):
+                ts_all.insert(float(y), float(v))
+            for k in rows:
+                if k not in ar["own"]:
+                    del tdve.ts[k]
+                    removed.add((nm, k))
+            tdve.ts["All"] = ts_all
+            allrows[nm] = {float(y): float(v) for y, v in zip(ar["t"], ar["v"])}
+            c.labels.append("data-all-row" + ("+own-rows" if any(k in ar["own"] for k in rows) else ""))
+        for nm, pop, y, v in c.req.get("data_edits") or []:
             if nm in Dc.tdve and pop in Dc.tdve[nm].ts:
                 Dc.tdve[nm].ts[pop].insert(float(y), float(v))
                 edits[(nm, pop, float(y))] = float(v)
@@ -896,8 +964,13 @@ def _check_data_cascades(c):
             raise Violation(ID, "cascade-data/years", "asked %r got time axis %r" % (year, np.asarray(t).tolist()))
 
         def entry(x, p, y):
+            # the population's own row wins; the "All" row only stands in for populations without one
             if (x, p, float(y)) in edits:
                 return edits[(x, p, float(y))]
+            if x in allrows:
+                has_own = (x, p) not in removed and ((p in c.spec["data"]["q"].get(x, {})) if c.spec is not None else (x in c.D.tdve and p in c.D.tdve[x].ts))
+                if not has_own:
+                    return allrows[x].get(float(y), np.nan)
             return H.spec_entry(c.spec, x, p, y) if c.spec is not None else H.data_entry(c.D, x, p, y)
 
         def own(cs):
@@ -942,6 +1015,86 @@ def _check_data_cascades(c):
     return shared
 
 
+PROGRAM_QUANTITIES = {
+    # quantity: (Result method, argument, timescale, documented time aggregation)
+    "spending": ("get_alloc", None, 1.0, "integrate"),
+    "equivalent_spending": ("get_equivalent_alloc", None, 1.0, "integrate"),
+    "coverage_number": ("get_coverage", "number", 1.0, "integrate"),
+    "coverage_capacity": ("get_coverage", "capacity", 1.0, None),
+    "coverage_eligible": ("get_coverage", "eligible", None, "average"),
+    "coverage_fraction": ("get_coverage", "fraction", None, "average"),
+}
+
+
+def _program_base(c, quantity):
+    """per-step program values straight from the Result (not through PlotData)"""
+    meth, arg, _ts, _m = PROGRAM_QUANTITIES[quantity]
+    out = getattr(c.res, meth)(arg) if arg else getattr(c.res, meth)()
+    return {k: np.array(v, dtype=float) for k, v in out.items()}
+
+
+def _stepped_bins(t, v, edges, scale, method):
+    """program quantities hold their value for the whole step: sum over the steps of value x time spent in the bin"""
+    out = []
+    for l, u in zip(edges[:-1], edges[1:]):
+        if l < t[0] or u > t[-1]:
+            out.append(np.nan)
+            continue
+        tot = 0.0
+        for k in range(len(t) - 1):
+            lo, hi = max(l, t[k]), min(u, t[k + 1])
+            if hi > lo:
+                tot = tot + v[k] * (hi - lo)
+        out.append(tot / scale if method == "integrate" else tot / (u - l))
+    return np.array(out, dtype=float)
+
+
+def _check_program_series(c, d, a, base):
+    """PlotData.programs == the Result's own per-step values, binned as a step function and accumulated as documented"""
+    meth, arg, timescale, method = PROGRAM_QUANTITIES[a["quantity"]]
+    t = c.ref.t
+    dt = c.ref.dt
+    tb = a["t_bins"]
+    exact = dt in (1.0, 0.5, 0.25, 0.125) and bool(np.all(np.diff(t) == dt)) and float(t[0] * 8).is_integer()
+    for s in d.series:
+        if s.output not in base:
+            continue
+        v = base[s.output]
+        tc = t
+        own = v.copy()
+        if tb is not None:
+            if method is None or not exact:
+                return
+            if isinstance(tb, list):
+                edges = [float(x) for x in tb]
+            elif tb == "all" or tb > t[-1] - t[0]:
+                edges = [float(t[0]), float(t[-1])]
+            else:
+                if len(s.tvec) == 0:
+                    return
+                edges = [float(x - tb / 2) for x in s.tvec] + [float(s.tvec[-1] + tb / 2)]
+            if any(not float((x - t[0]) / dt).is_integer() for x in edges):
+                return  # bin edges between time steps: the sampled quadrature is not exact
+            own = _stepped_bins(t, v, edges, timescale or 1.0, method)
+            tc = (np.array(edges[:-1]) + np.array(edges[1:])) / 2.0
+            if len(s.vals) != len(own):
+                raise Violation(ID, "programs/time-aggregation", "quantity %s t_bins %r: %d bins, own %d" % (a["quantity"], tb, len(s.vals), len(own)))
+        acc = a["accumulate"]
+        if acc == "sum":
+            own = np.cumsum(own)
+        elif acc == "integrate":
+            sc_ = timescale if (tb is None and timescale) else 1.0
+            x = tc / sc_
+            own = np.concatenate([[0.0], np.cumsum(0.5 * (own[1:] + own[:-1]) * np.diff(x))]) if len(own) else own
+        scale = np.abs(own) + (np.sum(np.abs(v[np.isfinite(v)])) * dt if tb is not None else np.abs(own))
+        if acc:
+            scale = np.maximum.accumulate(np.where(np.isfinite(scale), scale, 0.0)) + np.nansum(np.abs(own))
+        i = H.mismatch(s.vals, own, scale, 1e-9)
+        if i is not None:
+            raise Violation(ID, "programs/time-aggregation" if tb is not None else "programs/accumulate" if acc else "programs/value", "PlotData.programs(quantity=%r, t_bins=%r, accumulate=%r) program %s: reports %r, per-step values %r at t=%r held over each step give %r" % (a["quantity"], tb, acc, s.output, np.asarray(s.vals)[:6].tolist(), v[:8].tolist(), t[:8].tolist(), own[:6].tolist()))
+        c.labels.append("programs:own-%s%s" % ("binned" if tb is not None else "series", "+accumulate" if acc else ""))
+
+
 def _run_calls(c, dig0):
     import matplotlib.pyplot as plt
 
@@ -978,7 +1131,9 @@ def _run_calls(c, dig0):
                 c.res.plot(project=c.P)
             elif name == "programs_plotdata":
                 for _ in range(a.get("times", 1)):
+                    base = _program_base(c, a["quantity"])
                     d = at.PlotData.programs(c.res, outputs=a["outputs"], quantity=a["quantity"], t_bins=a["t_bins"], accumulate=a["accumulate"])
+                    _check_program_series(c, d, a, base)
                     for s in d.series:
                         s.vals[...] = -9.0
                     if a["plot"] == "series":
@@ -1050,6 +1205,7 @@ def check(case):
             _validate(c)
             dig0 = H.digest(res)
             _check_characteristics(c)
+            _check_export_raw(c)
             _check_lists(c)
             _check_results(c)
             _check_time(c)
